@@ -122,8 +122,95 @@ class Recorder:
 # --------------------------------------------------------------------------
 # scenarios
 # --------------------------------------------------------------------------
-def make_L(rng, kind, scale=1.0):
+NICE_PERIODS = (0.25, 0.375, 0.5, 0.625, 0.75, 1.0)     # dimensionless update lengths with few mantissa bits: the partition
+#                                                         times k T, their midpoints and t / T are exact in binary64 at rate 1
+COINCIDENT_FLOWS = ["cos_period", "cos_pulsed", "pulse", "zones", "loop"]
+
+
+def _zone(w):
+    """two smooth deformation zones inside (0, 1/2) and (1/2, 1): exactly 0 at w = 0, 1/2, 1; maximum ~0.93"""
+    s = w * (w - 0.5) * (w - 1.0)
+    return 400.0 * s * s
+
+
+def make_coincident(rng, kind, scale, T):
+    """Velocity gradients that take EXACTLY the same value at the start, the midpoint and the end of every update of
+    (dimensionless) length T but vary in between -- what any 'is the flow steady?' test on a few samples cannot tell
+    from a constant (seeded change C06d).  u = t * scale / T counts updates.
+      cos_period  L0 cos(4 pi m u): whole periods per half update, net strain zero (sample value L0)
+      cos_pulsed  L1 cos(4 pi m u) + L0^T (1 - cos(4 pi m u)): non-commuting in time (sample value L1)
+      pulse       two deformation pulses strictly inside each half of the update (sample value 0)
+      zones       the same as a function of POSITION: two shear zones crossed along a straight pathline, rigid material
+                  at the three sampled positions (sample value 0)
+      loop        position-dependent L on a closed pathline that returns to the same point at the three sample times
+    At rate 1 with T in NICE_PERIODS the coincidence is exact in binary64 (cos(fl(2 pi m)) = 1.0; the polynomial zone
+    profile is exactly 0 at w = 0, 1/2, 1); at other rates fl(fl(T / k) k) may miss T by an ulp, so the coincidence of
+    pulse / zones (not of the cosine families) can hold in one of two runs that differ only by the rate."""
+    L0 = G.velocity_gradient(rng, ("simple", "general", "trace")[int(rng.integers(3))])
+    L1 = G.velocity_gradient(rng, ("general", "pure", "simple")[int(rng.integers(3))])
+    m = int(rng.integers(1, 3))
+    desc = dict(kind=kind, period=T, harmonics=m, coincident=True)
+
+    def u(t):
+        return (t * scale) / T
+    if kind == "cos_period":
+        return (lambda t, x: scale * L0 * np.cos(4 * np.pi * m * u(t))), desc
+    if kind == "cos_pulsed":
+        return (lambda t, x: scale * (L1 * np.cos(4 * np.pi * m * u(t)) + L0.T * (1 - np.cos(4 * np.pi * m * u(t))))), desc
+    if kind == "pulse":
+        return (lambda t, x: scale * L1 * _zone(u(t) - np.floor(u(t)))), desc
+    if kind == "zones":
+        a = np.zeros(3)
+        a[int(rng.integers(3))] = 1.0
+        desc["get_x"] = lambda t: a * u(t)          # one unit of a coordinate per update
+
+        def get_zones(t, x):
+            xi = float(np.dot(a, x))
+            return scale * L1 * _zone(xi - np.floor(xi))
+        return get_zones, desc
+    if kind == "loop":
+        r, c0 = float(rng.uniform(0.3, 1.0)), float(rng.normal())
+        # the offset 20 r absorbs r sin(fl(2 pi m)) ~ -2.4e-16 m r: the three sampled positions are bit-identical
+        desc["get_x"] = lambda t: np.array([c0 + r * np.cos(4 * np.pi * m * u(t)), 20 * r + r * np.sin(4 * np.pi * m * u(t)), 0.0])
+        return (lambda t, x: scale * (L0 + L1 * float(np.tanh(x[0] - c0)) + L0.T * float(np.tanh(x[1] - 20 * r)))), desc
+    raise ValueError(kind)
+
+
+PLANAR_FLOWS = ["planar_xz", "uniaxial_z", "planar", "uniaxial"]
+
+
+def planar_gradient(rng, kind):
+    """Velocity gradient EXACTLY confined to a coordinate plane (one row and one column exactly zero, the usual 2-D set-up) but
+    with a NON-ZERO in-plane trace (compaction / dilation, uniaxial shortening): closed forms for 2-D incompressible flow
+    (principal strain rates +-sqrt(Dxx^2 + Dxz^2), 0) are wrong here, and only here.  planar_xz / uniaxial_z: the x-z plane
+    (PyDRex's own 2-D convention); planar / uniaxial: a random coordinate plane and in-plane axis.  Unit strain-rate scale."""
+    j = 1 if kind in ("planar_xz", "uniaxial_z") else int(rng.integers(3))      # out-of-plane axis
+    keep = [i for i in range(3) if i != j]
+    L = np.zeros((3, 3))
+    if kind.startswith("uniaxial"):
+        a = 2 if kind == "uniaxial_z" else keep[int(rng.integers(2))]
+        L[a, a] = -1.0 if rng.random() < 0.7 else 1.0
+    else:
+        B = rng.normal(size=(2, 2))
+        sgn = 1.0 if rng.random() < 0.5 else -1.0
+        if rng.random() < 0.6:      # both in-plane normal strain rates of the same sign (compaction / dilation with shear)
+            B[0, 0], B[1, 1] = sgn * float(rng.uniform(0.3, 1.5)), sgn * float(rng.uniform(0.3, 1.5))
+        else:                       # generic, trace clearly non-zero
+            B += np.eye(2) * float(rng.uniform(0.4, 1.2)) * sgn
+        for a in range(2):
+            for b in range(2):
+                L[keep[a], keep[b]] = B[a, b]
+    s = float(np.abs(np.linalg.eigvalsh((L + L.T) / 2)).max())
+    return L / s
+
+
+def make_L(rng, kind, scale=1.0, period=None):
     """returns (get_L(t, x), description).  Families of the quantifier."""
+    if kind in COINCIDENT_FLOWS:
+        return make_coincident(rng, kind, scale, float(period))
+    if kind in PLANAR_FLOWS:
+        L0 = planar_gradient(rng, kind) * scale
+        return (lambda t, x, L0=L0: L0.copy()), dict(kind=kind, L0=[hx(v) for v in L0.reshape(-1)])
     if kind in ("simple", "pure", "axisym", "general", "trace"):
         L0 = G.velocity_gradient(rng, kind) * scale
         return (lambda t, x, L0=L0: L0.copy()), dict(kind=kind, L0=[hx(v) for v in L0.reshape(-1)])
@@ -208,6 +295,21 @@ def scenario(rng, regime=None, pair=None, n=None, lkind=None, tkind=None, nupd=N
                 params=params, seed=int(rng.integers(0, 2**31 - 1)))
 
 
+def coincident_scenarios(rng, tier="quick", regimes=(4, 6, 0, 7), kinds=None, reps=None, nmax=10):
+    """One history per flow family of COINCIDENT_FLOWS (x reps): the velocity gradient seen along the pathline coincides
+    exactly at the start, midpoint and end of EVERY update and varies in between; the update length is sc["period"]."""
+    kinds = list(kinds if kinds is not None else COINCIDENT_FLOWS)
+    reps = reps if reps is not None else (1 if tier == "quick" else 6)
+    out = []
+    for r in range(reps):
+        for i, kind in enumerate(kinds):
+            sc = scenario(rng, regime=int(regimes[(i + r) % len(regimes)]), n=int(rng.integers(2, nmax + 1)), lkind=kind,
+                          nupd=int(rng.integers(1, 4)))
+            sc["period"] = float(NICE_PERIODS[int(rng.integers(len(NICE_PERIODS)))])
+            out.append(sc)
+    return out
+
+
 BLOCK_N_QUICK = (63, 64, 65, 127, 128, 129, 255, 256, 257, 512, 1000, 1024)
 BLOCK_N_THOROUGH = BLOCK_N_QUICK + (192, 384, 511, 513, 640, 768, 896, 1023, 1025, 2000, 2047, 2048, 2049, 4096)
 
@@ -243,12 +345,14 @@ def build(sc, assemblage=None, fractions=None):
     params["phase_assemblage"] = tuple(assemblage)
     params["phase_fractions"] = tuple(fractions)
     rng_flow = np.random.default_rng(sc.get("flow_seed", sc["seed"] + 1))   # independent of the texture
-    get_L, desc = make_L(rng_flow, sc["lkind"], scale=sc.get("rate", 1.0))
+    get_L, desc = make_L(rng_flow, sc["lkind"], scale=sc.get("rate", 1.0), period=sc.get("period"))
     v = rng_flow.normal(size=3)
 
     def get_x(t, v=v, r=sc.get("rate", 1.0)):
         return v * t * r
 
+    if "get_x" in desc:          # flow families that come with their own pathline (zones, loop)
+        get_x = desc.pop("get_x")
     return m, params, get_L, get_x, desc
 
 
